@@ -290,6 +290,40 @@ def run(prog, rep, tier):
             rep.ob('R07.4', okh, 'R07.4|%s|only-header-before-layers' % fc.nkey, 'only ArchiveHeader::dump writes to the raw destination before the layers are stacked' if okh else
                    'writes to the raw destination before the encryption layer: %s' % [cnorm(p.term) for p in pre], fc.loc())
 
+    # ---------------- R07.6 every registered recipient gets a wrapped key: the recipient list only ever grows
+    GROW = {'push', 'extend_from_slice', 'extend', 'append', 'insert', 'reserve', 'reserve_exact'}
+    READ = {'len', 'is_empty', 'iter', 'as_slice', 'deref', 'as_ref', 'contains', 'clone', 'get', 'first', 'last', 'index', 'to_vec', 'into_iter', 'borrow', 'eq', 'ne', 'fmt'}
+    nrec = 0
+    for body in mla.bodies:
+        cnt = collections.Counter()
+        for b in body.calls():
+            t = b.term
+            if not t.args or t.args[0].place is None:
+                continue
+            o = origins(body, [t.args[0].place[0]], through_calls=False)
+            if not any(f[-1] == 'ecc_keys' for f in o.fields):
+                continue
+            if not (t.arg_tys and t.arg_tys[0].startswith('&mut')):
+                continue     # shared access
+            nrec += 1
+            rep.fn(body)
+            m = t.cmethod
+            key = 'R07.6|%s|ecc_keys.%s#%d|recipients-only-added' % (body.nkey, m, cnt[m])
+            cnt[m] += 1
+            ok = m in GROW or m in READ or m in ('deref_mut', 'as_mut', 'borrow_mut', 'iter_mut')
+            rep.ob('R07.6', ok, key, 'recipient list extended (%s)' % m if ok else
+                   'the recipient list is modified by %s: a recipient registered earlier can be removed or replaced without any error, and cannot open the archive' % m, body.loc(b.idx))
+        for bl in body.blocks:
+            if bl.cleanup:
+                continue
+            for i, st in enumerate(bl.stmts):
+                if st.kind == 'assign' and place_fields(st.place)[-1:] == ['ecc_keys']:
+                    e = expr_of(body, st.rv.ops[0]) if st.rv.ops else ('unknown',)
+                    okc = e[0] == 'call' and e[2].cmethod in ('new', 'default', 'with_capacity')
+                    rep.ob('R07.6', okc, 'R07.6|%s|ecc_keys-assigned|recipients-only-added' % body.nkey, 'recipient list initialised empty' if okc else
+                           'the recipient list is overwritten: recipients registered earlier are dropped', body.loc(bl.idx, i))
+    rep.floor('R07.6', nrec, 1, 'mutations of the recipient list')
+
     # ---------------- R07.5 only a recipient key opens it
     lp = one_body(prog, rep, 'R07.5', 'mla', adt='layers::encrypt::EncryptionReaderConfig', name='load_persistent')
     stores = []
